@@ -101,3 +101,139 @@ Definition oinit (q : list Z) (njobs w : nat) : os := mkO q [] (repeat (mkOJob O
 Definition orun (pop : nat) (s : os) (sched : list oev) : os := fold_left (ostep pop) sched s.
 Definition running_received (s : os) : list (list Z) :=
   map received (filter (fun x => match oph x with ORunning => true | _ => false end) (ojobs s)).
+
+(* ---------------- extended mechanism ([xstep]): /repo HEAD in full ----------------
+   What [qstep] leaves out:
+   * the group semaphore itself: asyncio.Semaphore(len(queue) // queue_pop_per_task), created at the first execute()
+     of an event loop ([xperm]); a job takes a permit, THEN pops ([XTake]; popping from a deque that is too short is
+     the error flag [xerr] - it is a theorem that it never happens);
+   * waves: every submit() renews the worker semaphore (set_event_loop: self.sem = Semaphore(num_workers), F21), a job
+     waits on the worker semaphore that is current when it has taken its resources ([xgen]); [xsems] = free permits
+     of each generation;
+   * a run-function that raises ([XFail]): the finally-clause returns the resources, no metadata is reported;
+   * close() ([XClose]): every task is cancelled; resources of the cancelled jobs go back to the deque ([xreturned]);
+     the next loop gets a new group semaphore with len(queue) // pop permits.  On the thread backend ([thr] = true)
+     a running run-function cannot be interrupted: the job is cancelled, its resources are returned, but its thread
+     keeps executing with them ([XZombie]) until it returns ([XZombieEnd]);
+   * the pool of the thread backend: ThreadPoolExecutor(max_workers = num_workers).  A job that has its worker permit is
+     handed to the pool ([XQueued]) and its run-function is called when a pool thread is free ([XStart]; which of the
+     queued jobs is served is the pool's choice: any).  close() cancels a queued job before it starts;
+   * the constructor ([xnew]): the repaired code rejects queue_pop_per_task outside 1..len(queue) (F51);
+     [xinit] is the pinned constructor, which accepts anything. *)
+Inductive xphase := XWaiting | XHolding | XQueued | XRunning | XDone | XFailed | XCancelled | XZombie.
+Record xjob := mkXJob { xph : xphase; xres : list Z; xgen : nat }.
+Record xs := mkX {
+  xqueue : list Z;
+  xjobs : list xjob;
+  xperm : nat;            (* free permits of the group semaphore *)
+  xsems : list nat;       (* free permits of the worker semaphores, one per submit() *)
+  xerr : bool             (* popleft from a deque shorter than pop (IndexError) *)
+}.
+Inductive xev := XSubmit (k : nat) | XTake (j : nat) | XRun (j : nat) | XStart (j : nat) | XFinish (j : nat) | XFail (j : nat) | XClose | XZombieEnd (j : nat).
+
+Fixpoint setn {A} (l : list A) (j : nat) (x : A) : list A :=
+  match l, j with
+  | [], _ => []
+  | _ :: t, O => x :: t
+  | y :: t, S j' => y :: setn t j' x
+  end.
+
+Definition xdflt : xjob := mkXJob XCancelled [] 0.
+Definition xget (s : xs) (j : nat) : xjob := nth j (xjobs s) xdflt.
+Definition xholds (x : xjob) : list Z := match xph x with XHolding | XQueued | XRunning => xres x | _ => [] end.
+(* resources in use by a run-function that is executing *)
+Definition xexec (x : xjob) : list Z := match xph x with XRunning | XZombie => xres x | _ => [] end.
+Definition xheld (s : xs) : list Z := flat_map xholds (xjobs s).
+(* pool threads in use *)
+Definition xbusy (s : xs) : nat := length (filter (fun x => match xph x with XRunning | XZombie => true | _ => false end) (xjobs s)).
+
+Definition xenabled (s : xs) (e : xev) : bool :=
+  match e with
+  | XSubmit _ | XClose => true
+  | XTake j => Nat.ltb j (length (xjobs s)) && (match xph (xget s j) with XWaiting => true | _ => false end) && Nat.ltb 0 (xperm s)
+  | XRun j => Nat.ltb j (length (xjobs s)) && (match xph (xget s j) with XHolding => true | _ => false end)
+              && Nat.ltb 0 (nth (xgen (xget s j)) (xsems s) 0)
+  | XStart j => Nat.ltb j (length (xjobs s)) && (match xph (xget s j) with XQueued => true | _ => false end)
+  | XFinish j | XFail j => Nat.ltb j (length (xjobs s)) && (match xph (xget s j) with XRunning => true | _ => false end)
+  | XZombieEnd j => Nat.ltb j (length (xjobs s)) && (match xph (xget s j) with XZombie => true | _ => false end)
+  end.
+
+Definition xcancel (thr : bool) (x : xjob) : xjob :=
+  match xph x with
+  | XWaiting => mkXJob XCancelled [] (xgen x)
+  | XHolding | XQueued => mkXJob XCancelled (xres x) (xgen x)
+  | XRunning => mkXJob (if thr then XZombie else XCancelled) (xres x) (xgen x)
+  | _ => x
+  end.
+
+(* the order in which close() brings the resources back.  Serial backend: the tasks that wait for a worker are woken by
+   their cancellation one loop iteration before the tasks that await a run-function (whose cancellation first goes to the
+   run-function), each group in job order; thread backend: the executor future is cancelled at once, job order. *)
+Definition xhold1 (x : xjob) : list Z := match xph x with XHolding | XQueued => xres x | _ => [] end.
+Definition xrun1 (x : xjob) : list Z := match xph x with XRunning => xres x | _ => [] end.
+Definition xreturned (thr : bool) (s : xs) : list Z :=
+  if thr then xheld s else flat_map xhold1 (xjobs s) ++ flat_map xrun1 (xjobs s).
+
+Definition xreturn (s : xs) (j : nat) (p : xphase) : xs :=
+  let x := xget s j in
+  mkX (xqueue s ++ xres x) (setn (xjobs s) j (mkXJob p (xres x) (xgen x))) (S (xperm s))
+      (setn (xsems s) (xgen x) (S (nth (xgen x) (xsems s) 0))) false.
+
+Definition xstep (pop W : nat) (thr : bool) (s : xs) (e : xev) : xs :=
+  if xerr s then s else if negb (xenabled s e) then s else
+  match e with
+  | XSubmit k => mkX (xqueue s) (xjobs s ++ repeat (mkXJob XWaiting [] 0) k) (xperm s) (xsems s ++ [W]) false
+  | XTake j =>
+      if Nat.ltb (length (xqueue s)) pop then mkX (xqueue s) (xjobs s) (xperm s) (xsems s) true
+      else mkX (skipn pop (xqueue s)) (setn (xjobs s) j (mkXJob XHolding (firstn pop (xqueue s)) (length (xsems s) - 1)))
+               (xperm s - 1) (xsems s) false
+  | XRun j =>
+      let x := xget s j in
+      mkX (xqueue s) (setn (xjobs s) j (mkXJob (if thr then XQueued else XRunning) (xres x) (xgen x))) (xperm s)
+          (setn (xsems s) (xgen x) (nth (xgen x) (xsems s) 0 - 1)) false
+  | XStart j =>
+      let x := xget s j in
+      if Nat.ltb (xbusy s) W then mkX (xqueue s) (setn (xjobs s) j (mkXJob XRunning (xres x) (xgen x))) (xperm s) (xsems s) false
+      else s
+  | XFinish j => xreturn s j XDone
+  | XFail j => xreturn s j XFailed
+  | XClose =>
+      let q' := xqueue s ++ xreturned thr s in
+      mkX q' (map (xcancel thr) (xjobs s)) (Nat.div (length q') pop) (map (fun _ => W) (xsems s)) false
+  | XZombieEnd j => let x := xget s j in mkX (xqueue s) (setn (xjobs s) j (mkXJob XCancelled (xres x) (xgen x))) (xperm s) (xsems s) false
+  end.
+
+Definition xinit (pop : nat) (q : list Z) : xs := mkX q [] (Nat.div (length q) pop) [] false.
+Definition xnew (pop : nat) (q : list Z) : option xs :=
+  if Nat.leb 1 pop && Nat.leb pop (length q) then Some (xinit pop q) else None.
+Definition xrun (pop W : nat) (thr : bool) (s : xs) (sched : list xev) : xs := fold_left (xstep pop W thr) sched s.
+
+Definition xunfinished (x : xjob) : bool := match xph x with XWaiting | XHolding | XQueued | XRunning => true | _ => false end.
+Definition xsome_enabled (W : nat) (s : xs) : bool :=
+  existsb (fun j => xenabled s (XTake j) || xenabled s (XRun j) || (xenabled s (XStart j) && Nat.ltb (xbusy s) W)
+                    || xenabled s (XFinish j) || xenabled s (XZombieEnd j)) (seq 0 (length (xjobs s))).
+(* the 'dequed' metadata is reported for the jobs that returned *)
+Definition xmeta (s : xs) : list (nat * list Z) :=
+  flat_map (fun j => match xph (xget s j) with XDone => [(j, xres (xget s j))] | _ => [] end) (seq 0 (length (xjobs s))).
+
+(* what asyncio does between two interventions of the driver, on the serial backend: the semaphores wake their waiters
+   in FIFO order and jobs reach them in the order of their ids, so every job that can take its resources, and then
+   every job that can start, does so in id order.  One pass suffices: takes and starts only consume permits.
+   (On the thread backend the start of the run-function of a queued job is the pool's choice: an input, [DStart].) *)
+Definition xsettle (pop W : nat) (thr : bool) (s : xs) : xs :=
+  fold_left (fun s j => xstep pop W thr (xstep pop W thr s (XTake j)) (XRun j)) (seq 0 (length (xjobs s))) s.
+
+(* embedding of the basic mechanism: one submit, no failure, no close, serial backend (no job is ever XQueued there) *)
+Definition emb (e : qev) : xev := match e with Take j => XTake j | Run j => XRun j | Finish j => XFinish j end.
+Definition projjob (x : xjob) : job :=
+  mkJob (match xph x with XWaiting => Waiting | XHolding => Holding | XRunning => Running | _ => Finished end) (xres x).
+Definition proj (s : xs) : qs := mkQ (xqueue s) (map projjob (xjobs s)) (nth 0 (xsems s) 0).
+
+(* what the driver of an evaluator does, step by step (the harness performs the same operations on the implementation and
+   compares the states): an intervention followed by everything asyncio then does by itself ([xsettle]) *)
+Inductive xop := DSubmit (k : nat) | DFinish (j : nat) | DFail (j : nat) | DClose | DZombieEnd (j : nat) | DStart (j : nat).
+Definition xop_ev (o : xop) : xev :=
+  match o with DSubmit k => XSubmit k | DFinish j => XFinish j | DFail j => XFail j | DClose => XClose | DZombieEnd j => XZombieEnd j | DStart j => XStart j end.
+Definition xdrive (pop W : nat) (thr : bool) (s : xs) (o : xop) : xs := xsettle pop W thr (xstep pop W thr s (xop_ev o)).
+Fixpoint xdrive_all (pop W : nat) (thr : bool) (s : xs) (ops : list xop) : list xs :=
+  match ops with [] => [] | o :: t => let s' := xdrive pop W thr s o in s' :: xdrive_all pop W thr s' t end.
